@@ -119,7 +119,7 @@ prop("C07",
 
 prop("C09",
      specgen=(40, 1200),
-     scripts=lambda tier, rnd: S.reaction_table() + [x for x in S.backpressure() if "notif" in x["tags"] or "end" in x["tags"]] + S.gated() + S.fsm_points() + S.fin_mid_message() + sample(S.two_sessions(), rnd, 21 if tier == "thorough" else 8) +
+     scripts=lambda tier, rnd: S.reaction_table() + [x for x in S.backpressure() if "notif" in x["tags"] or "end" in x["tags"]] + S.gated() + S.gated_update_eof() + S.fsm_points() + S.fin_mid_message() + sample(S.two_sessions(), rnd, 21 if tier == "thorough" else 8) +
      (S.notif_values(rnd, 600 if tier == "thorough" else 30)) +
      sample(S.trailing(), rnd, 176 if tier == "thorough" else 30) + sample(S.pacing(), rnd, 60 if tier == "thorough" else 15),
      mc=lambda tier: [mc_pair(["openLo", "ka", "upd"], conns=1, msgs=3)] if tier == "quick" else
